@@ -291,6 +291,10 @@ impl Check for C03 {
             return sc;
         }
         sc.entry = *rng.pick(&Entry::ALL);
+        if index % 512 == 77 {
+            // 1 = the caller's thread-local was used first, 2 = the library was
+            sc.set_meta("teardown", 1 + ((index / 512) % 2) as i64);
+        }
         let mut hlen = 0usize;
         let mut hot: Vec<usize> = Vec::new();
         let mut stream: Vec<u8>;
@@ -502,6 +506,21 @@ impl Check for C03 {
             v.is_incomplete()
         });
         count_transport(st, sc, &end);
+        if let Some(order) = sc.meta("teardown") {
+            // lifecycle fault: the library is called once more while the thread is torn down
+            st.hit("fault:call_during_thread_teardown");
+            for desc in crate::recv::teardown_probe(&sc.stream, order == 2) {
+                out.push(viol(
+                    "C03",
+                    "panic_during_thread_teardown",
+                    entry,
+                    &sc.stream,
+                    crate::recv::panic_site(&desc),
+                    desc,
+                ));
+                break;
+            }
+        }
         if entry.is_text() {
             // reach probe: a multi-byte character right after the first CR reached a text entry point
             let s = crate::recv::text_view(&sc.stream[..end.stream_read.min(sc.stream.len())]);
@@ -528,6 +547,7 @@ impl Check for C03 {
             "fault:reset",
             "fault:truncated_stream",
             "fault:buffer_full",
+            "fault:call_during_thread_teardown",
         ]
     }
     fn rule(&self) -> String {
